@@ -93,7 +93,61 @@ func selected(prefix string) []int {
 	return out
 }
 
+// bulk: tables with thousands of entries and interleaved key ranges, so that
+// bloom-filter false positives and the sparse index matter at the DB level
+// (with a dozen keys a filter never errs). Keys are numbered 1..2n.
+func bulk(n int, in *mbt.Input, res *mbt.Result) {
+	verifhook.Install(nil, nil)
+	store := fsx.NewStore()
+	db := dkv.Open(dkv.DBOptions{FileSystem: store.View("g0", "/db"), MemTableSize: uint64(n * 24), L0TableNumCompactionTrigger: 1000}, nil)
+	key := func(i int) []byte { return []byte(fmt.Sprintf("k%06d", i)) }
+	var events []any
+	put := func(i, v int) {
+		db.Put(key(i), []byte(vals[v]))
+		events = append(events, ev{"op": "Put", "k": i, "v": v})
+	}
+	getv := func(i int) {
+		e, err := db.Get(key(i))
+		r := -9
+		switch {
+		case err == kv.ErrNotFound:
+			r = 0
+		case err != nil:
+			r = -9
+		case e.IsDelete():
+			r = 0
+		default:
+			r = valID(e.Value())
+		}
+		events = append(events, ev{"op": "Get", "k": i, "res": r})
+	}
+	for i := 2; i <= 2*n; i += 2 { // even keys -> first table(s)
+		put(i, 2)
+	}
+	put(2*n, 3) // rotate
+	db.WaitOnTasks()
+	for i := 1; i <= 2*n; i += 2 { // odd keys, same range -> newer overlapping table(s)
+		put(i, 3)
+	}
+	for i := 4; i <= 2*n; i += 400 {
+		db.Delete(key(i))
+		events = append(events, ev{"op": "Delete", "k": i})
+	}
+	put(1, 2)
+	db.WaitOnTasks()
+	for i := 1; i <= 2*n; i++ {
+		getv(i)
+	}
+	res.Steps += len(events)
+	res.Traces = append(res.Traces, map[string]any{"bulk": 2 * n, "events": events})
+	res.Executed++
+}
+
 func replay(bi int, beh []mbt.Step, in *mbt.Input, res *mbt.Result) {
+	if n := beh[0].Int("bulk"); n > 0 {
+		bulk(n, in, res)
+		return
+	}
 	run := beh[0].Int("run")
 	rng := rand.New(rand.NewSource(in.Seed*1000003 + int64(run)))
 	var jmu sync.Mutex
